@@ -37,7 +37,7 @@ import warnings
 from concurrent.futures import ThreadPoolExecutor
 
 sys.path.insert(0, os.path.dirname(os.path.dirname(os.path.abspath(__file__))))
-from mbv import tlc                                   # noqa: E402
+from mbv import build, tlc                            # noqa: E402
 from mbv.harness import Check, MachineryError, main   # noqa: E402
 
 KNOWN_ATTR = 'C04-stepper-attr-snapshot'
@@ -59,6 +59,9 @@ UNIVERSES = {
              StepSets='{2}', Periodics='{FALSE}'),
         dict(PatSets='PatsC', NReals='{2}', NGhosts='{1}',
              StepSets='{1, 2}', Periodics='{FALSE, TRUE}'),
+        # the same stepper class with different parameters on arrays a, c
+        dict(MaxS=2, PatSets='PatsD', NReals='{1}', NGhosts='{0, 1}',
+             StepSets='{2}', Periodics='{FALSE}'),
     ],
     'thorough': [
         dict(MaxS=2, PatSets='PatsA', NReals='{0, 1, 2}', NGhosts='{0, 1}',
@@ -67,16 +70,21 @@ UNIVERSES = {
              StepSets='{1, 2}', Periodics='{FALSE, TRUE}'),
         dict(MaxS=2, PatSets='PatsB', NReals='{0, 2}', NGhosts='{0, 1}',
              StepSets='{2}', Periodics='{TRUE}'),
+        dict(MaxS=2, PatSets='PatsD', NReals='{0, 2}', NGhosts='{0, 1}',
+             StepSets='{1, 2}', Periodics='{FALSE, TRUE}'),
     ],
 }
 MUTATIONS = ('ghosts', 'stale_t', 'norefresh')
 INVARIANTS = ('LogOK', 'GhostsUntouched', 'GhostsAreCopies', 'VisitsOK',
               'TimeOK')
-PATS_A = [['L'], ['P'], ['O'], ['W'], ['P', 'N'], ['L', 'P'], ['O', 'L']]
+PATS_A = [['L'], ['P'], ['O'], ['W'], ['P', 'N'], ['L', 'P'], ['O', 'L'],
+          ['L', 'P', 'L'], ['W', 'O', 'W']]
 # generated probe modules: (S, ne, stepper patterns)
 MODULES = {
     'quick': [(1, 1, ['W']), (2, 1, ['L', 'P']), (2, 2, ['O', 'L']),
-              (3, 2, ['P', 'N']), (2, 1, ['L']), (3, 1, ['O'])],
+              (3, 2, ['P', 'N']), (2, 1, ['L']), (3, 1, ['O']),
+              # arrays a and c: the SAME stepper class, different parameters
+              (2, 1, ['L', 'P', 'L'])],
     'thorough': [(S, ne, p) for p in PATS_A
                  for (S, ne) in ((1, 1), (2, 1), (2, 2), (3, 1), (3, 2))],
 }
@@ -240,13 +248,36 @@ def stale_after_domain(ops):
     return False
 
 
+def refresh_twice_after_move(ops, arrs):
+    """two refreshing compute_accelerations with a stage that moves particles
+    and no update_domain in between (the second refresh is the only thing
+    that makes the moved particles' neighbours right)"""
+    def moves(o):
+        return o['op'] == 'stage' and any(
+            a['meth'][o['m']]['loop'] and a['meth'][o['m']]['mv']
+            for a in arrs)
+    for i, o in enumerate(ops):
+        if o['op'] == 'accel' and o['nnps']:
+            moved = False
+            for p in ops[i + 1:]:
+                if p['op'] == 'domain':
+                    break
+                if moves(p):
+                    moved = True
+                if p['op'] == 'accel':
+                    if p['nnps'] and moved:
+                        return True
+                    if p['nnps']:
+                        break
+    return False
+
+
 def particle_configs(narr, rng, n, full=False):
+    import itertools
     allc = []
     per = [(r, g) for r in (0, 1, 2) for g in (0, 1)]
-    if narr == 1:
-        allc = [([r], [g]) for r, g in per]
-    else:
-        allc = [([r1, r2], [g1, g2]) for r1, g1 in per for r2, g2 in per]
+    allc = [([c[0] for c in cs], [c[1] for c in cs])
+            for cs in itertools.product(per, repeat=narr)]
     rng.shuffle(allc)
     must = ([2] * narr, [1] * narr)
     out = [must] + [c for c in allc if c != must]
@@ -269,10 +300,15 @@ def gen_modules(chk, progs, pats, rng):
     for mi, (S, ne, pn) in enumerate(MODULES[chk.tier]):
         pool = list(by[(S, ne)])
         rng.shuffle(pool)
-        arrs = [dict(name='ab'[ai], k0=ai + 1, meth=pats[(nm, S)])
+        arrs = [dict(name='abc'[ai], k0=ai + 1, meth=pats[(nm, S)])
                 for ai, nm in enumerate(pn)]
         neg = any(d['mv'] < 0 for a in arrs for d in a['meth'])
-        variants = [p['ops'] for p in pool[:NVARIANTS[chk.tier]]]
+        # shapes that must be there whatever the seed, then the sample
+        must = [p for p in pool
+                if refresh_twice_after_move(p['ops'], arrs)][:4]
+        rest = [p for p in pool if p not in must]
+        variants = [p['ops'] for p in
+                    (must + rest)[:NVARIANTS[chk.tier]]]
         M = dict(mid='g%d' % mi, kind='gen', S=S, ne=ne, arrs=arrs,
                  variants=variants, pats=pn)
         cases = []
@@ -326,6 +362,11 @@ def hand_modules(chk, pats):
              OP('post', num=1, den=2, n=7), OP('stage', 1),
              OP('post', num=1, den=4, n=3), OP('stage', 2), OP('stage', 2),
              OP('domain'), OP('accel', i=0, nnps=False)]
+    # compute_accelerations(); stage1() [moves]; compute_accelerations();
+    # stage2(); update_domain(); do_post_stage(dt, 1)
+    four3 = [OP('accel', i=0, nnps=True), OP('stage', 1),
+             OP('accel', i=0, nnps=True), OP('stage', 2), OP('domain'),
+             OP('post', num=1, den=1, n=1)]
     a5 = [MR(True, False)] + [MR(True, s % 2 == 1, 1 if s == 2 else 0)
                               for s in range(1, 6)]
     b5 = [MR(False, False), MR(True, False), MR(False, True), MR(True, True),
@@ -336,22 +377,24 @@ def hand_modules(chk, pats):
           MR(False, True), MR(True, False)]
     jobs = []
     for mid, ne, arrs, variants in (
-            ('h5', 2, [a5, b5], [five]), ('h4', 1, [a4, b4], [four, four2])):
+            ('h5', 2, [a5, b5, a5], [five]),
+            ('h4', 1, [a4, b4, a4], [four, four2, four3])):
         M = dict(mid=mid, kind='gen', S=len(arrs[0]) - 1, ne=ne,
-                 arrs=[dict(name='ab'[ai], k0=ai + 1, meth=m)
+                 arrs=[dict(name='abc'[ai], k0=ai + 1, meth=m)
                        for ai, m in enumerate(arrs)],
                  variants=variants, pats=['hand'])
         cases = []
         for vi, ops in enumerate(variants):
             for ci, (nr, ng) in enumerate(
-                    [([2, 2], [1, 1]), ([1, 2], [0, 1]), ([2, 0], [1, 0])]):
+                    [([2, 2, 2], [1, 1, 0]), ([1, 2, 1], [0, 1, 1]),
+                     ([2, 0, 2], [1, 0, 1])]):
                 cases.append(dict(id='%s-v%d-c%d' % (mid, vi, ci), variant=vi,
                                   nreal=nr, nghost=ng,
                                   steps=steps_of(1 + ci % 3), periodic=False,
                                   q=TICK, e=0))
             if not stale_after_domain(ops):
                 cases.append(dict(id='%s-v%d-p' % (mid, vi), variant=vi,
-                                  nreal=[2, 1], nghost=[0, 0],
+                                  nreal=[2, 1, 1], nghost=[0, 0, 0],
                                   steps=steps_of(2), periodic=True, q=TICK,
                                   e=0))
         jobs.append(dict(module=M, cases=cases))
@@ -551,6 +594,10 @@ def shipped_job(chk, mid, dotted, ops, exact, stepper):
              variants=[], pats=['shipped'])
     if stepper:
         M['stepper'] = stepper
+    else:
+        # array c: the same stepper class as a, another parameter
+        M['arrs'].append(dict(name='c', k0=3, meth=a))
+    na = len(M['arrs'])
     if exact:
         q, e, dt = TICK, 0, 4
     else:
@@ -562,12 +609,13 @@ def shipped_job(chk, mid, dotted, ops, exact, stepper):
     for ci, (nr, ng) in enumerate(cfgs):
         st = [dict(t=2 * dt, dt=dt), dict(t=3 * dt, dt=dt),
               dict(t=4 * dt, dt=dt)][:1 + ci % 3]
+        nr, ng = (nr + [2 - ci % 2])[:na], (ng + [ci % 2])[:na]
         cases.append(dict(id='%s-c%d' % (mid, ci), variant=0, nreal=nr,
                           nghost=ng, steps=st, periodic=False, q=q, e=e))
     if not stepper and not stale_after_domain(ops) and \
             any(o['op'] == 'domain' for o in ops):
-        cases.append(dict(id='%s-p' % mid, variant=0, nreal=[2, 1],
-                          nghost=[0, 0],
+        cases.append(dict(id='%s-p' % mid, variant=0, nreal=[2, 1, 1][:na],
+                          nghost=[0, 0, 0][:na],
                           steps=[dict(t=2 * dt, dt=dt), dict(t=3 * dt, dt=dt)],
                           periodic=True, q=q, e=e))
     return dict(module=M, cases=cases)
@@ -576,6 +624,32 @@ def shipped_job(chk, mid, dotted, ops, exact, stepper):
 # ---------------------------------------------------------------------------
 # real code
 # ---------------------------------------------------------------------------
+def tree_hash(root):
+    """must equal c04_driver.tree_hash (hash of the tree under test)"""
+    import hashlib
+    h = hashlib.sha256()
+    for sub in ('sph', 'base'):
+        top = os.path.join(root, 'pysph', sub)
+        for d, dn, fn in sorted(os.walk(top)):
+            dn[:] = sorted(x for x in dn if x not in ('__pycache__', 'build'))
+            for f in sorted(fn):
+                if f.endswith(('.py', '.mako')):
+                    p = os.path.join(d, f)
+                    h.update(os.path.relpath(p, root).encode())
+                    with open(p, 'rb') as fp:
+                        h.update(hashlib.sha256(fp.read()).digest())
+    return h.hexdigest()[:20]
+
+
+def resync(chk):
+    """the synchronised copy of the tree is shared by all checks; another
+    run may have re-synchronised it (to another tree) in the meantime"""
+    try:
+        build.ensure()
+    except build.BuildError as ex:
+        raise MachineryError('build failed: %s' % ex)
+
+
 def drive_job(chk, job, tag, mutate=None, timeout=900):
     """one driver process per module; a driver that dies costs only the case
     it was working on (recorded as a crash)"""
@@ -584,12 +658,13 @@ def drive_job(chk, job, tag, mutate=None, timeout=900):
     todo = list(job['cases'])
     traces = []
     rnd = 0
+    nstale = 0
     while todo:
         fi = os.path.join(sc, '%s-%s-job-%d.json' % (tag, M['mid'], rnd))
         fo = os.path.join(sc, '%s-%s-traces-%d.ndjson' % (tag, M['mid'], rnd))
         with open(fi, 'w') as fp:
             json.dump(dict(module=M, cases=todo), fp)
-        env = {'OMP_NUM_THREADS': '1'}
+        env = {'OMP_NUM_THREADS': '1', 'C04_TREE_HASH': chk.tree_hash}
         if mutate:
             env['C04_MUTATE'] = mutate
         try:
@@ -600,6 +675,7 @@ def drive_job(chk, job, tag, mutate=None, timeout=900):
             rc, err = -9, 'timeout: %s' % ex
         got = []
         ready = False
+        stale = ended = False
         if os.path.exists(fo):
             with open(fo) as fp:
                 for line in fp:
@@ -612,12 +688,30 @@ def drive_job(chk, job, tag, mutate=None, timeout=900):
                             'module %s (%s) could not be set up:\n%s' % (
                                 M['mid'], M.get('cls', 'generated'),
                                 x['setup_error']))
+                    if 'stale_source' in x:
+                        stale = True
+                        break
+                    if 'end' in x:
+                        ended = True
+                        stale = not x['source_ok']
+                        break
                     if 'uncovered' in x:
                         return [dict(uncovered=x['uncovered'], mid=M['mid'])]
                     if 'ready' in x:
                         ready = True
                     else:
                         got.append(x)
+        if stale:
+            # the shared copy of the tree changed under the driver: nothing
+            # recorded in this round is evidence about the tree under test
+            nstale += 1
+            if nstale > 5:
+                raise MachineryError(
+                    'the synchronised tree keeps changing under the drivers '
+                    '(another run re-synchronises it to a different tree)')
+            time.sleep(1.0 + nstale)
+            resync(chk)
+            continue
         traces += got
         if len(got) == len(todo):
             break
@@ -735,7 +829,7 @@ def selftest(chk, jobs):
     """(a) the verdict is bound to the recorded values; (b) a mutated
     integrator is reported.  Writes no evidence and no replay."""
     gen = [j for j in jobs if j['module']['kind'] == 'gen'
-           and len(j['module']['arrs']) == 2][:1]
+           and j['module']['pats'] == ['L', 'P', 'L']][:1]
     ship = [j for j in jobs if j['module'].get('cls', '').endswith(
         '.EPECIntegrator') and not j['module'].get('stepper')][:1]
     base = [t for p in drive(chk, gen + ship, 'sb') for t in p]
@@ -786,7 +880,8 @@ def selftest(chk, jobs):
             raise MachineryError('selftest: corrupted record %r accepted'
                                  % c['id'])
     muts = [('swap', gen), ('ghosts', gen), ('stale_t', gen + ship),
-            ('norefresh', gen + ship), ('swapsrc', ship)]
+            ('norefresh', gen + ship), ('swapsrc', ship),
+            ('sharestepper', gen + ship), ('lazyrefresh', gen)]
     with ThreadPoolExecutor(max_workers=len(muts)) as ex:
         res = list(ex.map(lambda m: (m[0], [t for p in drive(
             chk, m[1], 'sm-' + m[0], mutate=m[0], nproc=2) for t in p]),
@@ -819,6 +914,8 @@ def check(chk):
     rng = random.Random(chk.seed)
     phase = {}
     t0 = time.time()
+    chk.env                      # synchronise the tree under test
+    chk.tree_hash = tree_hash(build.REPO)
     info = dict(states=0, transitions=0, universes=[], sensitivity={})
     cover = {}
     if chk.args.replay:
